@@ -42,18 +42,34 @@ THEOREMS2 = {
 }
 # Props/PipelineArr.lean: the refinement gaps Pipeline2 left open (comprehensions and their scoping, median,
 # range(lo, hi, step) on every numeric kind, aggregates on same-dimension quantities)
-LEAN_MODULES3 = ["KaVerif.Props.PipelineArr"]
+# Props/Pipeline3.lean: instants and probability inside the unified model (refinement to Model/Instant.lean, Model/Prob.lean)
+LEAN_MODULES3 = ["KaVerif.Props.PipelineArr", "KaVerif.Props.Pipeline3"]
+GEN3 = GEN + ["ProbTable"]      # generated tables Props/Pipeline3.lean depends on
 THEOREMS3 = {
     "C12": ["KaVerif.PIPE_comprehension", "KaVerif.PIPE_comprehension_rejects", "KaVerif.PIPE_comprehension_closed_form",
             "KaVerif.PIPE_comprehension_session", "KaVerif.PIPE_comprehension_arith",
             "KaVerif.PIPE_median", "KaVerif.PIPE_median_exact", "KaVerif.PIPE_range_step_float",
             "KaVerif.PIPE_qty_aggregates"],
     "C14": ["KaVerif.PIPE_comprehension_scope", "KaVerif.PIPE_comprehension_session"],
+    "C17": ["KaVerif.PIPE_dispatch_table3", "KaVerif.PIPE_instant_literal", "KaVerif.PIPE_instant_parse_stage", "KaVerif.PIPE_instant_ops",
+            "KaVerif.PIPE_instant_node", "KaVerif.PIPE_instant_add_sub", "KaVerif.PIPE_instant_floor_ceil", "KaVerif.PIPE_instant_cmp_sign",
+            "KaVerif.PIPE_instant_non_time", "KaVerif.PIPE_instant_display"],
+    "C15": ["KaVerif.PIPE_instant_display"],
+    "C08": ["KaVerif.PIPE_dispatch_table3", "KaVerif.PIPE_prob_constructors", "KaVerif.PIPE_prob_mean", "KaVerif.PIPE_prob_single",
+            "KaVerif.PIPE_prob_eq", "KaVerif.PIPE_prob_double", "KaVerif.PIPE_prob_mixed_rejected", "KaVerif.PIPE_prob_complement",
+            "KaVerif.PIPE_prob_mass", "KaVerif.PIPE_prob_range"],
+    "C06": ["KaVerif.PIPE_instant_parse_stage", "KaVerif.PIPE_prob_constructors"],
+    "C09": ["KaVerif.PIPE_instant_cmp_sign", "KaVerif.PIPE_instant_node"],
 }
+ALL_THEOREMS3 = sorted({t for ts in THEOREMS3.values() for t in ts})
 RULE = ("whole programs (1-4 statements, depth <= 4) mixing arithmetic on ints / fractions / floats / scientific and based literals, "
         "variables and assignments across ';', factorials and binomials, quantities with units / prefixes / compound signatures / "
         "temperatures and 'to', intervals and their functions, arrays / ranges / comprehensions / aggregates, comparisons incl. chained "
-        "and backward ones, membership, elementary functions, strings; random redundant parentheses and whitespace; ~15 % deliberately "
+        "and backward ones, membership, elementary functions, strings; instant literals (all six ISO forms; month ends, leap days, year "
+        "ends, years 1 and 9999; ~6 % malformed) with + / - spans (ms .. weeks as int / fraction / float) and day counts in both orders, "
+        "I - J, floor / ceil, the six comparisons, the field accessors; the eight distributions (valid and invalid parameters, exact and "
+        "float), all single and double event forms in both directions, X = k, P / E / mean; variables, arrays and comprehensions holding "
+        "instants / random variables / events; random redundant parentheses and whitespace; ~15 % deliberately "
         "ill-typed, ~4 % syntactically damaged; plus sessions of 2-5 inputs against one environment; each through the real "
         "execute() (status, exact output text, class of the diagnosed error, marker position) and through the unified Lean model")
 
@@ -503,7 +519,7 @@ class Gen:
         if not self.ill_used and self.rng.random() < self.ill / 6.0:
             self.ill_used = True
             self.tags.add("ill-typed")
-            t = self.rng.choice(["num", "qty", "arr", "intv", "str", "bool", "lazy", "arrq"])
+            t = self.rng.choice(["num", "qty", "arr", "intv", "str", "bool", "lazy", "arrq", "inst", "rv", "event", "span", "inst", "rv"])
         f = getattr(self, "g_" + t)
         return self.maybe_paren(f(d))
 
@@ -515,6 +531,9 @@ class Gen:
                 self.tags.add("variable")
                 return (v, L_ATOM)
             return self.num_lit()
+        if rng.random() < 0.10:
+            # numbers out of instants and random variables, mixed into ordinary arithmetic
+            return self.g_instnum(d - 1) if rng.random() < 0.45 else self.g_prob(d - 1)
         r = rng.random()
         if r < 0.30:
             op = rng.choice(["+", "-", "*", "/", "+", "-", "*", "/", "%"])
@@ -750,6 +769,282 @@ class Gen:
         a = self.g_intv(d - 1)
         return (self.join(["log", "(", a[0], ",", rng.choice(["2", "10", "0.5", "e"]), ")"]), L_ATOM)
 
+    # ---- instants (C17) ------------------------------------------------------------------------------
+    def inst_lit(self):
+        """an instant literal: month ends, leap days, year ends, first / last years; all six ISO forms; ~6 % malformed"""
+        rng = self.rng
+        self.tags.add("instant")
+        r = rng.random()
+        if r < 0.06:
+            self.tags.add("instant-malformed")
+            return "#" + rng.choice(["2020-02-30", "2021-13-01", "2019-02-29", "1900-02-29", "2020-00-10", "2020-04-31", "0000-01-01",
+                                     "2020-01-01T24:00", "2020-01-01T10:60", "2020-01-01 10:00:60", "2020-13", "2020-1-1", "20200101",
+                                     "abc", "", "2020-01-01T10", "2020-01-01T10:00:00+01:00", "2020-W01-1", " 2020-01-01"]) + "#"
+        r = rng.random()
+        if r < 0.15:
+            y = rng.choice([1, 1, 2, 9998, 9999, 9999])
+        elif r < 0.45:
+            y = rng.choice([4, 100, 400, 1600, 1900, 1904, 2000, 2019, 2020, 2023, 2024, 2100, 2400, 9996])
+        elif r < 0.8:
+            y = rng.randint(1950, 2050)
+        else:
+            y = rng.randint(1, 9999)
+        m = rng.choice([2, 2, 2, 12, 12, 1, rng.randint(1, 12), rng.randint(1, 12), rng.randint(1, 12)])
+        import calendar
+        n = calendar.monthrange(y, m)[1]
+        d = rng.choice([n, n, n, 1, min(n, 28), min(n, 29), min(n, 30), rng.randint(1, n), rng.randint(1, n)])
+        r = rng.random()
+        if r < 0.06:
+            return "#%04d#" % y
+        if r < 0.12:
+            return "#%04d-%02d#" % (y, m)
+        date = "%04d-%02d-%02d" % (y, m, d)
+        if r < 0.4:
+            return "#" + date + "#"
+        h, mi, sc = rng.choice([(0, 0, 0), (23, 59, 59), (12, 0, 0), (rng.randint(0, 23), rng.randint(0, 59), rng.randint(0, 59))])
+        sep = " " if rng.random() < 0.25 else "T"
+        r = rng.random()
+        if r < 0.3:
+            return "#%s%s%02d:%02d#" % (date, sep, h, mi)
+        if r < 0.7:
+            return "#%s%s%02d:%02d:%02d#" % (date, sep, h, mi, sc)
+        k = rng.choice([1, 2, 3, 6, 6, 6, 7, 9])
+        digs = rng.choice(["9" * k, "0" * (k - 1) + "1", "5" + "0" * (k - 1), "".join(rng.choice("0123456789") for _ in range(k))])
+        return "#%s%s%02d:%02d:%02d.%s#" % (date, sep, h, mi, sc, digs)
+
+    def g_span(self, d):
+        """a time span: ms, s, min, h, days, weeks as int / fraction / float (sometimes through a variable or I - J)"""
+        rng = self.rng
+        self.tags.add("span")
+        v = self.pick_var(["span"])
+        if v and rng.random() < 0.25:
+            self.tags.add("variable")
+            return (v, L_ATOM)
+        if d > 0 and rng.random() < 0.12:
+            a, b = self.g_inst(d - 1), self.g_inst(d - 1)
+            return (self.join([self.at(a, L_SUM), "-", self.at(b, L_PROD)]), L_SUM)
+        unit = rng.choice(["ms", "s", "s", "min", "h", "d", "days", "week", "weeks", "seconds", "hours", "minutes", "μs", "ks"])
+        r = rng.random()
+        if r < 0.4:
+            mag = rng.choice(["0", "1", "1", "2", "3", "7", "30", "59", "60", "90", "365", "1000", "86400", "86399", str(rng.randrange(0, 10 ** rng.randrange(1, 7)))])
+        elif r < 0.65:
+            mag = self.join([str(rng.randrange(1, 2000)), "/", rng.choice(["2", "3", "4", "7", "10", "1000", "3", "6", "2000000"])])
+            mag = "(" + mag + ")" if rng.random() < 0.5 else mag
+        elif r < 0.95:
+            mag = rng.choice(["0.5", "1.5", "2.25", "0.001", "0.1", "1e-3", "2.5e-4", "0.0000005", "0.0000015", "1.0000005", "90.5", "3.3",
+                              "1e-7", "123.456789", "0.3333333", "86399.9999995", "59.9999999"])
+        else:
+            mag = self.at(self.expr("num", max(0, d - 1)), L_SIGN)
+        text = self.join([mag, unit])
+        lv = L_QTY if "/" not in mag or mag.startswith("(") else L_PROD
+        if rng.random() < 0.2:
+            return (self.join(["-", "(", text, ")"]), L_SIGN)
+        return (text, lv)
+
+    def g_inst(self, d):
+        rng = self.rng
+        self.tags.add("instant")
+        if d <= 0 or rng.random() < 0.4:
+            v = self.pick_var(["inst"])
+            if v and rng.random() < 0.4:
+                self.tags.add("variable")
+                return (v, L_ATOM)
+            return (self.inst_lit(), L_ATOM)
+        r = rng.random()
+        if r < 0.35:
+            a, q = self.g_inst(d - 1), self.g_span(d - 1)
+            op = rng.choice(["+", "+", "-"])
+            if op == "+" and rng.random() < 0.35:
+                return (self.join([self.at(q, L_SUM), "+", self.at(a, L_PROD)]), L_SUM)
+            return (self.join([self.at(a, L_SUM), op, self.at(q, L_PROD)]), L_SUM)
+        if r < 0.6:
+            a = self.g_inst(d - 1)
+            n = rng.choice(["1", "1", "2", "7", "28", "29", "30", "31", "365", "366", "1000", "0", "36524", "146097", "10^7", "10^12", "3!"])
+            if rng.random() < 0.15:
+                n = self.at(self.expr("num", 0), L_PROD)
+            op = rng.choice(["+", "+", "-"])
+            if op == "+" and rng.random() < 0.35:
+                return (self.join([n, "+", self.at(a, L_PROD)]), L_SUM)
+            return (self.join([self.at(a, L_SUM), op, n]), L_SUM)
+        if r < 0.85:
+            a = self.g_inst(d - 1)
+            return (self.join([rng.choice(["floor", "ceil"]), "(", a[0], ")"]), L_ATOM)
+        if r < 0.93:
+            # (I + q) - q, (I - q) + q: the calendar laws as programs
+            a, q = self.g_inst(d - 1), self.g_span(0)
+            o1, o2 = rng.choice([("+", "-"), ("-", "+")])
+            return (self.join(["(", self.at(a, L_SUM), o1, self.at(q, L_PROD), ")", o2, self.at(q, L_PROD)]), L_SUM)
+        # wrong-kind operands
+        self.tags.add("ill-typed")
+        a = self.g_inst(d - 1)
+        b = rng.choice([self.g_qty(0, "len"), self.expr("str", 0), self.expr("arr", 0), ("2.5", L_ATOM), ("1/2", L_PROD), self.g_inst(0)])
+        op = rng.choice(["+", "-", "*", "/", "^", "+"])
+        lv = L_SUM if op in "+-" else L_PROD if op in "*/" else L_POW
+        return (self.join([self.at(a, lv + (0 if op != "^" else 1)), op, self.at(b, lv + 1)]), lv)
+
+    def g_instnum(self, d):
+        """numbers out of instants: field accessors, comparisons, elapsed time in a unit"""
+        rng = self.rng
+        self.tags.add("instant")
+        r = rng.random()
+        if r < 0.45:
+            a = self.g_inst(d)
+            return (self.join([rng.choice(["year", "month", "day", "hour", "minute", "second"]), "(", a[0], ")"]), L_ATOM)
+        if r < 0.8:
+            a, b = self.g_inst(d), self.g_inst(d)
+            if rng.random() < 0.25:
+                b = a
+            op = rng.choice(["<", "<=", "==", "!=", ">", ">="])
+            self.tags.add("comparison")
+            return (self.join([self.at(a, L_SUM), op, self.at(b, L_SUM)]), L_CMP)
+        a, b = self.g_inst(d), self.g_inst(d)
+        return (self.join([self.at(a, L_SUM), "-", self.at(b, L_PROD), "to", rng.choice(["s", "h", "d", "days", "weeks", "min", "ms"])]), L_TO)
+
+    # ---- probability (C08) ---------------------------------------------------------------------------
+    P_VALID = ["1/2", "0.5", "1/3", "0.3", "0.25", "3/10", "0.75", "99/100", "0", "1", "1/10", "0.999"]
+    P_BAD = ["3/2", "-0.1", "1.5", "-1/2", "2", "1.0000001", "-1"]
+
+    def threshold(self, d=0):
+        rng = self.rng
+        r = rng.random()
+        if r < 0.55:
+            k = rng.choice([-3, -1, 0, 0, 1, 1, 2, 3, 3, 4, 5, 6, 7, 9, 10, 11, 12, 20, 25])
+            return (str(k), L_ATOM) if k >= 0 else ("(-%d)" % -k, L_ATOM)
+        if r < 0.85:
+            return (rng.choice(["2.5", "7/2", "(7/2)", "0.5", "1/2", "(-1/2)", "-2.5", "0.999999", "3.75", "10.5", "1/3", "0.1", "9/4", "1e-3", "4.0"]), L_PROD)
+        if r < 0.93:
+            return (rng.choice(["3!", "C(4,2)", "2^3", "10^12", "1e15", "300", "5000"]), L_FACT)
+        return self.expr("num", max(0, d))
+
+    def g_rv(self, d):
+        rng = self.rng
+        self.tags.add("random-variable")
+        v = self.pick_var(["rv"])
+        if v and rng.random() < 0.45:
+            self.tags.add("variable")
+            return (v, L_ATOM)
+        bad = rng.random() < 0.1
+        if bad:
+            self.tags.add("invalid-parameter")
+        k = rng.choice(["Binomial", "Binomial", "Poisson", "Geometric", "Bernoulli", "UniformInt", "Uniform", "Exponential", "Gaussian"])
+        if k == "Binomial":
+            n = rng.choice(["0", "-3", "2.5", "7/2"]) if bad and rng.random() < 0.5 else rng.choice(["1", "2", "5", "10", "10", "20", "23", "3!"])
+            p = rng.choice(self.P_BAD) if bad and n not in ("0", "-3", "2.5", "7/2") else rng.choice(self.P_VALID)
+            args = [n, p]
+        elif k == "Poisson":
+            args = [rng.choice(["0", "-2", "2.5", "1/2"]) if bad else rng.choice(["1", "2", "3", "10", "25", "40"])]
+        elif k == "Geometric":
+            args = [rng.choice(["0", "-1/2", "3/2", "1.5", "0.0"]) if bad else rng.choice(["1", "1/2", "1/3", "9/10", "1/10", "0.25", "0.7", "1/40"])]
+        elif k == "Bernoulli":
+            args = [rng.choice(self.P_BAD) if bad else rng.choice(self.P_VALID)]
+        elif k == "UniformInt":
+            lo, hi = rng.choice([(3, 2), (0, -1), ("1/2", 3), (1, "2.5")]) if bad else rng.choice([(1, 10), (0, 0), (3, 3), (-5, 4), (-3, -3), (2, 3), (-10, -4), (1, 6), (0, 100)])
+            args = [str(lo), str(hi)]
+        elif k == "Uniform":
+            lo, hi = rng.choice([(2, 1), ("0.5", "0.25"), ("1/2", "1/3")]) if bad else rng.choice([(0, 10), (0, 1), (1, 1), ("-2.5", 3), ("1/3", "7/2"), (-4, -1), ("0.5", "2.5"), (0, "1/2"), ("1/4", 2)])
+            args = [str(lo), str(hi)]
+        elif k == "Exponential":
+            args = [rng.choice(["0", "-1", "-0.5"]) if bad else rng.choice(["1", "2", "1/2", "0.1", "7", "2.5", "1/10"])]
+        else:
+            mu, sd = rng.choice([(0, 0), (1, -2), (1, "-1/2")]) if bad else rng.choice([(0, 1), ("1.5", 2), (-3, "1/2"), (10, "0.01"), ("1/3", 3), (100, 15), ("2.5", "0.5")])
+            args = [str(mu), str(sd)]
+        if rng.random() < 0.06:
+            args = args[:-1] if rng.random() < 0.5 else args + ["1"]          # wrong arity
+            self.tags.add("ill-typed")
+        toks = [k, "("]
+        for i, a in enumerate(args):
+            toks += ([","] if i else []) + [a]
+        return (self.join(toks + [")"]), L_ATOM)
+
+    def g_event(self, d):
+        rng = self.rng
+        self.tags.add("event")
+        v = self.pick_var(["event"])
+        if v and rng.random() < 0.2:
+            self.tags.add("variable")
+            return (v, L_ATOM)
+        x = self.g_rv(d)
+        xs = self.at(x, L_SUM)
+        r = rng.random()
+        if r < 0.45:
+            t = self.at(self.threshold(d - 1), L_SUM)
+            op = rng.choice(["<", "<=", ">", ">="])
+            return (self.join([xs, op, t] if rng.random() < 0.5 else [t, op, xs]), L_CMP)
+        if r < 0.6:
+            # X = k: mostly a small k inside the usual supports (pmf at 0 and 1 of a Bernoulli, the ends of a UniformInt)
+            t = rng.choice(["0", "1", "1", "2", "3", "5", "10"]) if rng.random() < 0.75 else self.at(self.threshold(d - 1), L_SUM)
+            return (self.join([xs, "=", t] if rng.random() < 0.85 else [t, "=", xs]), L_CMP)
+        a, b = self.at(self.threshold(d - 1), L_SUM), self.at(self.threshold(d - 1), L_SUM)
+        if r < 0.92:
+            o1, o2 = rng.choice([("<", "<"), ("<", "<="), ("<=", "<"), ("<=", "<="), (">", ">"), (">", ">="), (">=", ">"), (">=", ">=")])
+        else:
+            o1, o2 = rng.choice([("<", ">"), (">=", "<"), ("<", "="), ("=", "<="), ("==", "<"), (">", "!=")])
+            self.tags.add("chained")
+        return (self.join([a, o1, xs, o2, b]), L_CMP)
+
+    def g_prob(self, d):
+        """numbers out of random variables: P(event), E(X), mean(X); occasionally a wrong-kind argument"""
+        rng = self.rng
+        self.tags.add("probability")
+        r = rng.random()
+        if r < 0.7:
+            e = self.g_event(d)
+            return (self.join(["P", "(", e[0], ")"]), L_ATOM)
+        if r < 0.92:
+            x = self.g_rv(d)
+            return (self.join([rng.choice(["E", "mean"]), "(", x[0], ")"]), L_ATOM)
+        self.tags.add("ill-typed")
+        a = rng.choice([self.g_rv(d), self.expr("num", 0), self.g_inst(0), self.g_event(0), self.expr("arr", 0)])
+        return (self.join([rng.choice(["P", "E", "mean", "P"]), "(", a[0], ")"]), L_ATOM)
+
+    def g_arrx(self, d):
+        """arrays of instants / random variables / events and comprehensions over them"""
+        rng = self.rng
+        self.tags.add("array")
+        r = rng.random()
+        n = rng.choice([1, 2, 2, 3])
+        if r < 0.3:
+            toks = ["{"]
+            for i in range(n):
+                toks += ([","] if i else []) + [self.g_inst(max(0, d - 1))[0]]
+            return (self.join(toks + ["}"]), L_BRACK)
+        if r < 0.42:
+            toks = ["{"]
+            for i in range(n):
+                toks += ([","] if i else []) + [rng.choice([self.g_rv, self.g_event])(max(0, d - 1))[0]]
+            return (self.join(toks + ["}"]), L_BRACK)
+        self.tags.add("comprehension")
+        saved = dict(self.vars)
+        x = rng.choice(["t", "k", "X", "q", "D"])
+        r = rng.random()
+        if r < 0.4:
+            src = ["{"]
+            for i in range(n):
+                src += ([","] if i else []) + [self.g_inst(0)[0]]
+            src = self.join(src + ["}"])
+            self.vars[x] = "inst"
+            body = rng.choice([self.g_instnum(0), self.g_inst(1), self.g_instnum(0)])
+        elif r < 0.7:
+            src = self.join([rng.choice(["0", "1", "-1"]), "..", rng.choice(["3", "4", "6"])])
+            X = self.g_rv(0)
+            op = rng.choice(["<", "<=", ">", ">=", "=", "<", "<="])
+            body = (self.join(["P", "(", X[0], op, x, ")"] if rng.random() < 0.7 else ["P", "(", x, op if op != "=" else "<", X[0], ")"]), L_ATOM)
+        else:
+            src = ["{"]
+            for i in range(n):
+                src += ([","] if i else []) + [self.g_rv(0)[0]]
+            src = self.join(src + ["}"])
+            self.vars[x] = "rv"
+            body = self.g_prob(0)
+        conds = []
+        if rng.random() < 0.3:
+            conds = [self.g_bool(0)[0]]
+        self.vars = saved
+        toks = ["{", body[0], ":", self.join([x, "in", src])]
+        for c in conds:
+            toks += [",", c if not re.match(r"^\w+\s+in\b", c) else "(" + c + ")"]
+        return (self.join(toks + ["}"]), L_BRACK)
+
     def g_str(self, d):
         self.tags.add("string")
         return (self.rng.choice(['"abc"', '""', '"a b"', '"x=1; y"', '"3 m"', '"q"', '"{1,2}"']), L_BRACK)
@@ -757,6 +1052,9 @@ class Gen:
     def g_bool(self, d):
         rng = self.rng
         self.tags.add("comparison")
+        if rng.random() < 0.06:
+            a, b = self.g_inst(max(0, d - 1)), self.g_inst(max(0, d - 1))
+            return (self.join([self.at(a, L_SUM), rng.choice(["<", "<=", "==", "!=", ">", ">="]), self.at(b, L_SUM)]), L_CMP)
         r = rng.random()
         op = rng.choice(["<", "<=", "==", "!=", ">", ">=", "<", ">"])
         if r < 0.45:
@@ -794,14 +1092,17 @@ def gen_program(rng, depth=None):
     nst = rng.choice([1, 1, 1, 2, 2, 3, 4])
     stmts = []
     for k in range(nst):
-        t = rng.choice(["num", "num", "num", "qty", "arr", "intv", "bool", "str", "lazy", "arrq"])
-        e = g.expr(t, depth)
-        text = e[0]
         last = k == nst - 1
+        t = rng.choice(["num", "num", "num", "qty", "arr", "intv", "bool", "str", "lazy", "arrq",
+                        "inst", "instnum", "prob", "prob", "arrx"] + (["rv", "rv", "inst", "span", "event"] if not last else ["rv", "event", "span"]))
+        e = g.expr(t, depth if t not in ("inst", "instnum", "prob", "rv", "event", "span", "arrx") else min(depth, 2))
+        text = e[0]
         if (not last and rng.random() < 0.8) or (last and rng.random() < 0.1):
             name = rng.choice(["x", "y", "z", "w", "total", "a1", "v_2", "pi" if rng.random() < 0.1 else "t", "m" if rng.random() < 0.2 else "u"])
+            if t in ("rv", "event", "inst") and rng.random() < 0.5:
+                name = {"rv": rng.choice(["X", "Y", "B"]), "event": "ev", "inst": rng.choice(["I", "J", "t0"])}[t]
             stmts.append(g.join([name, "=", text]))
-            vt = {"qty": "qty:None", "lazy": "num", "arrq": "arrq"}.get(t, t)
+            vt = {"qty": "qty:None", "lazy": "num", "arrq": "arrq", "instnum": "num", "prob": "num"}.get(t, t)
             g.vars[name] = vt
             g.tags.add("assignment")
         else:
